@@ -407,3 +407,13 @@ Example fair_round_example :
   fair_round 2 mid_state = [NOutcome 1 false; NOutcome 2 false; NEmit 2 None; NDeliver 3; NOutcome 3 true] /\
   useful_acks mid_state (fair_round 2 mid_state) = 1 /\ unacked mid_state = 8.
 Proof. vm_compute. repeat split; reflexivity. Qed.
+
+(* non-vacuity of unacked_zero_complete: the final state of NetSysP2.netsys_example *)
+Example unacked_zero_example :
+  match run_sched net_init [NWrite [1; 2; 3] false; NEmit 2 None; NWrite [4] true; NEmit 10 None;
+                            NDeliver 1; NDeliver 1; NOutcome 0 false; NEmit 10 None; NDeliver 2; NDeliver 0; NDeliver 1;
+                            NOutcome 1 true; NOutcome 2 true; NPop; NSync] with
+  | Some s => unacked s = 0 /\ n_dbytes s = n_written s
+  | None => False
+  end.
+Proof. vm_compute. split; reflexivity. Qed.
